@@ -3,7 +3,7 @@ SPEC = {
     "lean_props": ["TunnoxModel.Props.C12"],
     "harness": {
         "pkg": "c12",
-        "shims": {"client": "internal/client"},
+        "shims": {"client": "internal/client", "mapping": "internal/client/mapping"},
         "runs": [{"args": [], "corpus": ""}],
     },
     "rule": ("the real iocopy.Bidirectional / iocopy.UDP between scripted fake endpoints whose every Read is gated by a "
@@ -20,6 +20,9 @@ SPEC = {
              "EOF and error tails, malformed/illegal-length and random streams, a flush-timer tick at every position of "
              "short datagram sequences, prefix/buffer size boundaries (255/256/65535/65536, half-full batch, 300 KB window), "
              "all interleavings of the two goroutines x every combination of endings (eof/err/blocked-until-closed). "
+             "ASYNCHRONOUS LOCAL SOCKET: iocopy.UDP against the real mapping.UDPVirtualConn (the localConn of tunnel.runDataCopy) "
+             "over a gated UDP socket: reads that end inside the next record x sends of the session's writeLoop delayed past "
+             "the following reads/compactions (every split position, sampled interleavings of t and s). "
              "SOCKS5 UDP-ASSOCIATE tunnel codec (udpTunnelConn, the listen-side peer of iocopy.UDP): the real SendPacket "
              "produces the wire, the real ReceivePacket reads it back; a burst coalesced into ONE read, k records per read, every "
              "split position, one-byte reads x every cut offset x both tails, prefix-boundary sizes, random bursts/partitions. "
@@ -42,6 +45,7 @@ SPEC = {
         "Writes to the UDP socket and to the tunnel succeed while the relay runs (write-error paths of iocopy.UDP are not modelled); TCP sinks refuse a whole Write (no short writes)",
         "a schedule step is one loop iteration of one goroutine (Read .. next Read), or the begin / the end of a Write that stays in progress; the two directions share no state except through the endpoints",
         "the real 20 ms flush ticker cannot be stopped: a run in which it fired outside the scheduled windows before a scheduled slow write is detected and repeated (stat reruns_unscheduled_tick)",
+        "asynchronous local socket (mapping.UDPVirtualConn): its send loop stops when the relay closes the session; the harness lets the socket take what is queued before the end of the tunnel is delivered (a datagram still queued at teardown may be dropped by the unchanged code: UDP loss at close, not counted against the property); no local->tunnel traffic and no fused tail in these cases",
         "NoOp transformer (the rate limiter is C02's subject)",
     ],
 }
